@@ -183,7 +183,7 @@ def describe(inputs, ntx):
 
 
 CLASS = {"duplicate": "answer", "short_garbage": "garbage", "bad_checksum": "garbage", "sym_garbage": "garbage",
-         "lone_fragment": "fragment", "two_fragments": "fragment"}
+         "lone_fragment": "fragment", "two_fragments": "fragment", "dup_fragment": "fragment"}
 
 
 def describe_budget(inputs, ntx, budget):
@@ -205,10 +205,10 @@ CONFIGS_QUICK = [
     {"transport": "tcp", "keep_alive": True, "T": 3, "retries": 0},
 ]
 ALPHABET = ["drop", "answer", "short_garbage", "bad_checksum", "exception", "two_fragments", "lone_fragment", "duplicate",
-            "peer_closes", "send_error", "sym_garbage"]
+            "peer_closes", "send_error", "sym_garbage", "dup_fragment"]
 
 
-ALPHABET_QUICK = ["drop", "answer", "short_garbage", "exception", "two_fragments", "peer_closes", "send_error"]
+ALPHABET_QUICK = ["drop", "answer", "short_garbage", "exception", "two_fragments", "peer_closes", "send_error", "dup_fragment"]
 
 
 def tasks(tier, seed):
@@ -223,7 +223,13 @@ def tasks(tier, seed):
     for i, c in enumerate(cfgs):
         # split the alphabet of the first transmission over tasks (first-level path prefixes in parallel)
         for k0 in alphabet:
-            ts.append({"name": f"req-{i}-{k0}", "scen": c, "first": k0, "connect_faults": False, "alphabet": alphabet})
+            if c["retries"] >= 1:
+                # heavy first kinds: also pin the kind of the second transmission (more, smaller tasks)
+                for k1 in alphabet:
+                    ts.append({"name": f"req-{i}-{k0}-{k1}", "scen": c, "first": k0, "second": k1, "connect_faults": False,
+                               "alphabet": alphabet})
+            else:
+                ts.append({"name": f"req-{i}-{k0}", "scen": c, "first": k0, "connect_faults": False, "alphabet": alphabet})
         if c["transport"] == "tcp":
             for conn0 in range(len(TR.CONNECT)):
                 ts.append({"name": f"req-{i}-connect{conn0}", "scen": c, "first": None, "connect_faults": True,
@@ -231,26 +237,10 @@ def tasks(tier, seed):
     return ts
 
 
-class FirstKind(OneRequest):
-    """OneRequest with the kind of the first transmission pinned (parallel decomposition of the script space)"""
-
-    def __init__(self, scen, kinds, first, connect_faults=False):
-        super().__init__(scen, kinds, connect_faults)
-        self.first = first
-        self.params["first"] = first
-
-    def symbolic(self, ex):
-        if self.first is not None:
-            from symx.core import sym_int, cur
-            # pin k0_0 before the script asks for it
-            self._pin = TR.K[self.first]
-        return super().symbolic(ex)
-
-
 def run_task(task):
     kinds = task["alphabet"] if not task["connect_faults"] else ["drop", "answer", "peer_closes"]
     if task["first"] is not None:
-        h = PinnedFirst(task["scen"], kinds, task["first"])
+        h = PinnedFirst(task["scen"], kinds, task["first"], task.get("second"))
     else:
         h = PinnedConnect(task["scen"], kinds, task["conn0"])
     return {"harnesses": [explore(h, max_paths=60000, max_seconds=1500, witnesses_per_outcome=2)]}
@@ -288,16 +278,19 @@ class PinnedConnect(OneRequest):
 
 
 class PinnedFirst(OneRequest):
-    def __init__(self, scen, kinds, first):
+    def __init__(self, scen, kinds, first, second=None):
         super().__init__(scen, kinds, False)
-        self.first = first
+        self.first, self.second = first, second
         self.params["first"] = first
+        self.params["second"] = second
 
     def symbolic(self, ex):
         G = shimmed()
         G.modbus._modbus_checksum = TR.hybrid_crc(G.orig_checksum)
         script = TR.SymScript(self.kinds, self.scenario().T)
         script.cache["k0_0"] = TR.K[self.first]
+        if self.second is not None:
+            script.cache["k0_1"] = TR.K[self.second]
         self._k = lambda i: script.cache.get(f"k0_{i}", 0)
         obs = self._run(G, script)
 
@@ -313,13 +306,15 @@ class PinnedFirst(OneRequest):
     def concrete(self, inputs):
         inputs = dict(inputs)
         inputs["k0_0"] = TR.K[self.first]
+        if self.second is not None:
+            inputs["k0_1"] = TR.K[self.second]
         return super().concrete(inputs)
 
 
 def replay(case):
     p = case["params"]
     if p.get("first") is not None:
-        return PinnedFirst(p["scenario"], p["kinds"], p["first"]).concrete(case["inputs"])
+        return PinnedFirst(p["scenario"], p["kinds"], p["first"], p.get("second")).concrete(case["inputs"])
     if p.get("conn0") is not None:
         return PinnedConnect(p["scenario"], p["kinds"], p["conn0"]).concrete(case["inputs"])
     return OneRequest(p["scenario"], p["kinds"], p["connect_faults"]).concrete(case["inputs"])
